@@ -639,6 +639,54 @@ def _shape_txt(sh):
     return "[" + ", ".join(hex(x) if isinstance(x, int) else "<%d bytes>" % len(x) if isinstance(x, bytes) else repr(x) for x in sh) + "]"
 
 
+def helper_codec_faithful(ctx):
+    """the four integer codec helpers every layout rule treats as primitives really are `n.to_bytes(length, order)` /
+    `int.from_bytes(b, order)` of their own arguments: unsigned, exact width, raising when the value does not fit"""
+    out = []
+    for name, order in (("int_to_little_endian", "little"), ("int_to_big_endian", "big")):
+        spec = "helper:" + name
+        mod, fn = rl.get(ctx, spec)
+        ps = param_names(fn)
+        rets = [r for r in ast.walk(fn) if isinstance(r, ast.Return) and r.value is not None]
+        for r in rets:
+            v = r.value
+            ok = isinstance(v, ast.Call) and isinstance(v.func, ast.Attribute) and v.func.attr == "to_bytes"
+            if ok and isinstance(v.func.value, ast.Name) and v.func.value.id == ps[0] and len(v.args) == 2 and isinstance(v.args[0], ast.Name) and v.args[0].id == ps[1] \
+                    and isinstance(v.args[1], ast.Constant) and v.args[1].value == order and not any(k.arg == "signed" for k in v.keywords):
+                out.append(ctx.ok(spec, "returns %s.to_bytes(%s, %r)" % (ps[0], ps[1], order), r, mod, key="codec:" + name))
+            elif ok and isinstance(v.func.value, ast.BinOp) and isinstance(v.func.value.op, (ast.BitAnd, ast.Mod)):
+                out.append(ctx.bad(spec, "`%s` reduces the value to the field width before encoding it: a value that does not fit (a port of 65536+8333, a 5-byte amount in a "
+                                         "4-byte field) is silently written as another number instead of raising" % ast.unparse(v), r, mod, key="codec:" + name))
+            elif ok and isinstance(v.args[1] if len(v.args) > 1 else None, ast.Constant) and v.args[1].value != order:
+                out.append(ctx.bad(spec, "`%s` encodes %s-endian" % (ast.unparse(v), v.args[1].value), r, mod, key="codec:" + name))
+            elif ok and any(k.arg == "signed" for k in v.keywords):
+                out.append(ctx.bad(spec, "`%s` is a signed encoding: values >= 2^(8*length-1) no longer fit" % ast.unparse(v), r, mod, key="codec:" + name))
+            else:
+                out.append(ctx.err(spec, "`%s` not recognised as %s.to_bytes(%s, %r)" % (ast.unparse(v), ps[0], ps[1], order), r, mod))
+    for name, order in (("little_endian_to_int", "little"), ("big_endian_to_int", "big")):
+        spec = "helper:" + name
+        mod, fn = rl.get(ctx, spec)
+        ps = param_names(fn)
+        for r in [r for r in ast.walk(fn) if isinstance(r, ast.Return) and r.value is not None]:
+            v = r.value
+            if isinstance(v, ast.Call) and ast.unparse(v.func) == "int.from_bytes" and len(v.args) == 2 and isinstance(v.args[0], ast.Name) and v.args[0].id == ps[0] \
+                    and isinstance(v.args[1], ast.Constant) and v.args[1].value == order and not v.keywords:
+                out.append(ctx.ok(spec, "returns int.from_bytes(%s, %r)" % (ps[0], order), r, mod, key="codec:" + name))
+            elif isinstance(v, ast.Call) and ast.unparse(v.func) == "int.from_bytes" and any(k.arg == "signed" for k in v.keywords):
+                out.append(ctx.bad(spec, "`%s` decodes two's complement: values with the top bit set come back negative" % ast.unparse(v), r, mod, key="codec:" + name))
+            elif isinstance(v, ast.Call) and ast.unparse(v.func) == "int.from_bytes" and len(v.args) == 2 and isinstance(v.args[1], ast.Constant) and v.args[1].value != order:
+                out.append(ctx.bad(spec, "`%s` decodes %s-endian" % (ast.unparse(v), v.args[1].value), r, mod, key="codec:" + name))
+            else:
+                out.append(ctx.err(spec, "`%s` not recognised as int.from_bytes(%s, %r)" % (ast.unparse(v), ps[0], order), r, mod))
+    if len(out) < 4:
+        raise AnalysisError("helper codecs: fewer than four return statements found")
+    return out
+
+
+def c04_11(ctx):
+    return helper_codec_faithful(ctx)
+
+
 def c04_10(ctx):
     """DOMAIN of the constructors behind the codec: every value the wire format can carry can be held -- TxOut amounts over the
     whole 8-byte field [0, 2^64-1], TxIn sequence and index over [0, 2^32-1].  A policy bound in a constructor (MAX_MONEY)
@@ -676,5 +724,6 @@ OBLIGATIONS = [
     ("C04.8", "COUNT", c04_8),
     ("C04.9", "CELLS re-typing", c04_9),
     ("C04.10", "RANGE domain", c04_10),
+    ("C04.11", "CODEC primitives", c04_11),
 ]
 FLOORS = {"C04.1": 4, "C04.2": 5, "C04.3": 7, "C04.4": 10, "C04.5": 14, "C04.6": 5, "C04.7": 4, "C04.8": 5}
